@@ -75,6 +75,21 @@ def known_site(calls):
 
 
 def run(ctx):
+    # the decomposition must not modify the matrices of its nodes either: trees of sign-scrambled R10 supports (the R10 step
+    # judges signs on the node's own matrix) with re-completion scripts, decided by the tree judge (root matrix = input,
+    # every node recomposes) - a second use of the same node must see the same matrix
+    import gen as _gen
+    from props import c03 as _c03
+    trng = ctx.rng.fork("c19-r10")
+    tl = []
+    for M in _gen.r10_sign_scrambles(trng, 300 if ctx.quick else 6000):
+        c = _gen.rand_cfg(trng, algorithm=0, stopflags=False, wantSub=0)
+        c[1], c[16] = 1, 1
+        k = 1 + trng.below(3)
+        sc = "%d %s" % (k, " ".join("%d 1 %d" % (trng.choice([1, 2]), trng.below(3)) for _ in range(k)))
+        tl.append("%s 0 %s %s" % (_gen.cfg_line(c), vlib.mat_line(M), sc))
+    ctx.stream("tree", tl, "node matrices stay untouched: sign-scrambled R10 supports with re-completion scripts",
+               describe=lambda c: _c03.CODES.get(c, str(c)), ignore_codes=tuple(_c03.FLAGS), keyfn=_c03.keyfn)
     pool = Pool(ctx, 25 if ctx.quick else 200)
     for name in SOURCES:
         importlib.import_module("props." + name).run(pool)
